@@ -187,7 +187,7 @@ def check_file(job):
                 want = chain_ref(js, th)
                 got = arm.FK(th.copy()).gTM()
                 ev.append(("FK=file semantics", reg, float(np.abs(got - want).max()), 1e-6, dict(case, theta=th.tolist()),
-                           near_half_turn(js)))
+                           near_half_turn(js) or ("exp_cutoff" if np.any((np.abs(th) > 0) & (np.abs(th) < 1e-6)) else "")))
     return ev
 
 
@@ -211,6 +211,14 @@ def known_probe(L):
             th = np.array([0.7])
             got = arm.FK(th.copy()).gTM()
         L.log("FK=file semantics", "probe", float(np.abs(got - chain_ref(js, th)).max()), 1e-6, {"probe": "log_near_pi"}, near_half_turn(js))
+        # exp_cutoff: a joint value of 5e-7 rad on an arm whose tool sits 5 m out
+        js2 = [dict(js[0], rpy=[0.0, 0.0, 0.0]), dict(js[1], xyz=[5.0, 0.0, 0.0])]
+        write_urdf(path, js2, False, False)
+        with contextlib.redirect_stdout(io.StringIO()):
+            arm = loadArmFromURDF(path)
+            th = np.array([5e-7])
+            got = arm.FK(th.copy()).gTM()
+        L.log("FK=file semantics", "probe", float(np.abs(got - chain_ref(js2, th)).max()), 1e-6, {"probe": "exp_cutoff"}, "exp_cutoff")
     finally:
         try:
             os.remove(path)
@@ -340,7 +348,7 @@ def run(ctx):
         L.require("FK=exact chain" if reg.startswith("exact") else "FK=file semantics", reg, 10)
         L.require("loads", reg, 5)
     with ctx.timed("lawtrace"):
-        L.decide(ctx, known_tags=["log_near_pi"], tag="c13")
+        L.decide(ctx, known_tags=["log_near_pi", "exp_cutoff"], tag="c13")
     shapes = sorted(set(e[4].get("shape", "bundled") for e in L.events))
     ctx.sample({"abstract_file": recs[len(recs) // 2]["joints"], "world": recs[len(recs) // 2]["world"],
                 "exact_poses": recs[len(recs) // 2]["poses"]})
